@@ -18,9 +18,9 @@ EXPLANATION = ("Numerical: expression trees over blank-separated + - * /, parent
                "unit equals the reference evaluator's base-value result (multiplication/division before addition/subtraction, left to right). Logical: comparisons, ~, !, ~!, && and || "
                "over numeric/boolean/string operands with symbolic numbers kept outside the 1e-6 tolerance band by precondition; z3 proves the truth value. Templates: the rendered text is "
                "compared with Python's format() on concrete values (formatting is C-level), covering each format class with width/precision and slices.")
-ASSUMPTIONS = dipkit.DIP_STUB_TEXT + ["numerical operands are positive and denominators are subtraction-free; the result is claimed within 1e-9 of the magnitude scale (sum of the absolute additive terms), so cancellation of binary64 noise cannot raise an alarm",
+ASSUMPTIONS = dipkit.DIP_STUB_TEXT + ["function cases use concrete arguments (angles in deg/rad, lengths) and compare with Python's math functions at 1e-6 relative (the table value of deg is rounded)", "numerical operands are positive and denominators are subtraction-free; the result is claimed within 1e-9 of the magnitude scale (sum of the absolute additive terms), so cancellation of binary64 noise cannot raise an alarm",
                                       "numbers compared in the generated logical trees differ by more than 1e-3 relative or are exactly equal; the band families judge ==, !=, <=, >= for values within 0.9e-6 relative (must count as equal) and between 1.2e-6 and 1e-4 relative with the compared value >= 0.1 (must count as different; numpy's absolute 1e-8 term is the library's own addition and stays inside the unjudged gap)",
-                                      "function values (exp, log, sin ...) are uninterpreted: only their arguments are compared"]
+                                      "inside the generated symbolic trees no functions occur; the documented functions are covered by the concrete 'functions' list"]
 OUTSIDE = ['comparisons of two bare literals and of an int node with a float node (the library has no data type to compare in / refuses them)', 'array operands', 'sign folding together with ** inside DIP numerical expressions', 'relative differences between 0.9e-6 and 1.2e-6 (the edge of the tolerance band, where numpy adds an absolute 1e-8)', 'strict < and > between quantities that are exactly equal after conversion (binary64 conversion noise decides; no tolerance is documented for them)']
 BOUNDS = {'quick': '150 numerical trees (<= 4 operators), 80 logical trees (<= 4 operators), 24 tolerance-band families (|d| <= 9e-7 inside, 1.2e-6 .. 1e-4 outside), 94 concrete unit ties, 34 template cases', 'thorough': '900 numerical, 500 logical, 120 band families'}
 EXHAUSTIVE = {'quick': False, 'thorough': False}
@@ -169,6 +169,22 @@ def run(v, O):
     for head, expr, want in v.cases:
         r = outcome(lambda: bool(dip_parse(head + '\\nres bool = ("' + expr + '")').data(Format.VALUE)['res']))
         out.append((f'{head.splitlines()[0]} ; {expr}', O.same(r, ('ok', want))))
+    return out
+'''
+FN_SRC = '''
+def run(v, O):
+    out = []
+    for expr, unit, want in v.cases:
+        text = v.head + f'r float = ("{expr}")' + (f' {unit}' if unit else '')
+        r = outcome(lambda: dip_parse(text).data(Format.TUPLE)['r'])
+        if want is None:
+            out.append((f'{expr}: refused', O.same(r[0], 'raised')))
+            continue
+        out.append((f'{expr}: evaluates', O.same(r[0], 'ok')))
+        if r[0] == 'ok':
+            got = r[1]
+            out.append((f'{expr}: unit', O.same(got[1] if isinstance(got, tuple) else None, unit)))
+            out.append((f'{expr}: value', O.eq(got[0] if isinstance(got, tuple) else got, want, 1e-6)))
     return out
 '''
 TPL_SRC = '''
@@ -322,8 +338,20 @@ TEMPLATES = [
     ('bare d', 'id int = 345', '{{?id}:d}', '345'), ('bare e', 'w float = 62.3 kg', '{{?w}:e}', '6.230000e+01'), ('bare f', 'h float = 1.5', '{{?h}:f}', '1.500000'), ('bare s', "name str = 'Tina'", '{{?name}:s}', 'Tina'),
     ('bare format on an element', 'w float[3] = [23.4,235.4,34]', '{{?w}[1]:e}', '2.354000e+02'), ('bare format on a slice of a string', "name str = 'Tina'", '{{?name}[0:2]:s}|', 'Ti|'), ('precision only', 'h float = 2.71828', '{{?h}:.3f}', '2.718'),
     ('width only int', 'k int = 42', '{{?k}:4d}|', '  42|'), ('int as e', 'k int = 345', '{{?k}:e}', '3.450000e+02'), ('int as bare f', 'k int = 3', '{{?k}:f}', '3.000000'),
+    ('matrix element with a zero index first', 'w float[2,3] = [[1.5,2.5,3.5],[4.5,5.5,6.5]]', '{{?w}[0,1]:.2f}', '2.50'), ('matrix element with a zero index last', 'w float[2,3] = [[1.5,2.5,3.5],[4.5,5.5,6.5]]', '{{?w}[1,0]:.2f}', '4.50'),
+    ('3-d array: two indices, the first zero', 'c int[2,2,2] = [[[1,2],[3,4]],[[5,6],[7,8]]]', '{{?c}[0,1]}', '[3, 4]'), ('3-d array: three indices with zeros', 'c int[2,2,2] = [[[1,2],[3,4]],[[5,6],[7,8]]]', '{{?c}[0,1,0]:d}', '3'),
+    ('3-d array: index, zero, range', 'c int[2,2,2] = [[[1,2],[3,4]],[[5,6],[7,8]]]', '{{?c}[1,0,:]}', '[5, 6]'), ('row zero of a matrix', 'w float[2,3] = [[1.5,2.5,3.5],[4.5,5.5,6.5]]', '{{?w}[0]}', '[1.5, 2.5, 3.5]'),
+    ('element zero of a vector', 'v int[3] = [7,8,9]', '{{?v}[0]:03d}', '007'), ('string character zero', "name str = 'Tina'", '{{?name}[0]}', 'T'),
     ('float with unit only value is rendered', 'h float = 2 m', '{{?h}:.0f}', '2'), ('int as float format', 'k int = 3', '{{?k}:.1f}', '3.0'), ('zero', 'k int = 0', '{{?k}:03d}', '000'),
 ]
+
+
+import math
+FN_HEAD = 'side float = 4 cm\nangle float = 60 deg\nhalf float = 0.5\n'
+FN_CASES = [('cos(60 deg)', None, 0.5), ('sin(30 deg)', None, 0.5), ('tan(180 deg / 4)', None, 1.0), ('sin(1.5707963267948966)', None, 1.0), ('cos(1 rad)', None, math.cos(1)), ('exp(0)', None, 1.0),
+            ('exp(2)', None, math.exp(2)), ('log(1)', None, 0.0), ('log10(1000)', None, 3.0), ('logb(8, 2)', None, 3.0), ('sqrt(16 m2)', 'm', 4.0), ('pow(2 m, 3)', 'm3', 8.0),
+            ('{?side} * cos({?angle})', 'cm', 2.0), ('sin({?angle})', None, math.sin(math.pi / 3)), ('2 * sin(30 deg) + 1', None, 2.0), ('cos({?angle}) / {?half}', None, 1.0),
+            ('sin(3.141592653589793 / 6)', None, 0.5), ('tan(45 deg) * 3 m', 'm', 3.0), ('sqrt(9 m2) + 1 m', 'm', 4.0), ('pow(3 cm, 2) / 1 cm', 'cm', 9.0), ('sin(1 m)', None, None), ('cos(2 s)', None, None)]
 
 
 def _ties():
@@ -402,6 +430,7 @@ def scenarios(tier, seed):
         S.append(Scenario(f'band/{j}', BAND_SRC, {'b': 'real', 'd': 'real'}, pre, consts={'ua': ua, 'ub': ub, 'kinds': kinds, 'ops': ops, 'inside': inside}, preamble=PRE,
                           what=f'comparisons of values {"inside" if inside else "just outside"} the 1e-6 tolerance, units {ua} / {ub}, operands {kinds}', samples=3))
     S.append(Scenario('ties', TIES_SRC, {}, consts={'cases': TIES}, preamble=PRE, what='comparisons of exactly equal quantities written in different units (binary64 conversion noise)', samples=1))
+    S.append(Scenario('functions', FN_SRC, {}, consts={'cases': FN_CASES, 'head': FN_HEAD}, preamble=PRE, what='documented functions inside numerical expressions (concrete arguments with units)', samples=1))
     S.append(Scenario('templates', TPL_SRC, {}, consts={'cases': TEMPLATES}, preamble=PRE, what='templates against Python format()', samples=1))
     S.append(Scenario('canary/priority', NUM_SRC, {'x1': 'real', 'x2': 'real', 'x3': 'real'}, ['v.x1 > 0', 'v.x2 > 0', 'v.x3 > 0'],
                       consts={'tree': ('bin', '*', ('bin', '+', ('lit', 'x1', 'm'), ('lit', 'x2', 'cm')), ('lit', 'x3', None)), 'nodes': [], 'custom': False, 'reqcustom': False}, preamble=PRE, canary=True))
